@@ -201,7 +201,7 @@ def jobs(tier):
     c = amo_contract(NA)
     c.requires += REC
     J('new_at_most_one_pairwise', AMO_T, c,
-      d=dict(defines(nv0, maxv=6, maxcl=max(NA * (NA - 1) // 2, NA), maxlits=3, exprs_cap=4, str_cap=(6 if NA == 2 else 8)), CM_SQRT_UNREACHABLE=1), mem_gb=40,
+      d=dict(defines(nv0, maxv=6, maxcl=max(NA * (NA - 1) // 2, NA), maxlits=3, exprs_cap=4, str_cap=(6 if NA == 2 else 8)), CM_SQRT_UNREACHABLE=1), mem_gb=40, mem_est=17,
       replace=(NEW_VAR, NEW_CLAUSE, AMO_T + '_rec', CONJ_T), callee={AMO_T + '_rec': UNREACHABLE, CONJ_T: conj_contract(NA - 1)},
       call_alias={(AMO_T, AMO_T): AMO_T + '_rec'},
       replay=RP_LS + '''  lit ret = sat->new_at_most_one(ls);
@@ -217,7 +217,7 @@ def jobs(tier):
     c = exo_contract(NA)
     c.requires += REC
     J('new_exct_one', EXO_T, c,
-      d=dict(defines(nv0, maxv=6, maxcl=max(NA * (NA - 1) // 2, NA) + 2, maxlits=3, exprs_cap=5, str_cap=(6 if NA == 2 else 8)), CM_SQRT_UNREACHABLE=1), mem_gb=40,
+      d=dict(defines(nv0, maxv=6, maxcl=max(NA * (NA - 1) // 2, NA) + 2, maxlits=3, exprs_cap=5, str_cap=(6 if NA == 2 else 8)), CM_SQRT_UNREACHABLE=1), mem_gb=40, mem_est=12,
       replace=(NEW_VAR, NEW_CLAUSE, AMO_T, CONJ_T), callee={AMO_T: amo_contract(NA), CONJ_T: conj_contract(NA - 1)},
       replay=RP_LS + '''  lit ret = sat->new_exct_one(ls);
   auto exo = [&](unsigned long s) { std::set<size_t> t; for (auto &l : ls) if (sg(s, l)) t.insert(index(l)); return t.size() == 1; };
